@@ -109,7 +109,7 @@ theorem step_oinv {s : Script} {c : Cfg} (hi : Inv s c) (h : OInv s c) (t : Nat)
     · rw [← cfg_eta c]; exact same _ (by simp [hx]) _ _ _
   | wait r b =>
     simp only; split
-    · split <;> (rw [← cfg_eta c]; exact same _ (by simp [hx]) _ _ _)
+    · rw [← cfg_eta c]; exact same _ (by simp [hx]) _ _ _
     · split
       · rw [← cfg_eta c]; exact oinv_ret_free h t _ (by simp [hx]) _ .fin rfl trivial _ _ _
       · rw [← cfg_eta c]; exact same _ (by simp [hx]) _ _ _
@@ -117,15 +117,20 @@ theorem step_oinv {s : Script} {c : Cfg} (hi : Inv s c) (h : OInv s c) (t : Nat)
     simp only; split
     · rw [← cfg_eta c]; exact oinv_ret_free h t _ (by simp [hx]) _ .fin rfl trivial _ _ _
     · rw [← cfg_eta c]; exact same _ (by simp [hx]) _ _ _
+  | ent r b =>
+    simp only; split
+    · rw [← cfg_eta c]; exact oinv_ret_free h t _ (by simp [hx]) _ .fin rfl trivial _ _ _
+    · split <;> (rw [← cfg_eta c]; exact same _ (by simp [hx]) _ _ _)
   | cs r b acc => simp only; rw [← cfg_eta c]; exact same _ (by simp [hx]) _ _ _
   | ins r b acc =>
     simp only
     cases s c.P with
-    | some v => simp only; split <;> exact same _ (by simp [hx]) _ _ _
-    | none => simp only; split; · exact same _ (by simp [hx]) _ _ _
-              · split <;> exact same _ (by simp [hx]) _ _ _
+    | some v => simp only; split
+                · split <;> exact same _ (by simp [hx]) _ _ _
+                · exact same _ (by simp [hx]) _ _ _
+    | none => simp only; exact same _ (by simp [hx]) _ _ _
     | panic => simp only; exact same _ (by simp [hx]) _ _ _
-  | setC r b =>
+  | setC r b acc0 =>
     simp only; split
     · exact oinv_ret_free h t _ (by simp [hx]) _ .fin rfl trivial _ _ _
     · exact same _ (by simp [hx]) _ _ _
@@ -160,7 +165,7 @@ theorem step_oinv {s : Script} {c : Cfg} (hi : Inv s c) (h : OInv s c) (t : Nat)
 theorem oinv_init (s : Script) (ps : Nat → List Req) : OInv s (init ps) := by
   constructor <;> simp [init]
 
-theorem oinv_run {s : Script} (hf : Fused s) (σ : List Nat) {c : Cfg} (hi : Inv s c) (h : OInv s c)
+theorem oinv_run {s : Script} (σ : List Nat) {c : Cfg} (hi : Inv s c) (h : OInv s c)
     (hW : (run s σ c).R < W) : OInv s (run s σ c) := by
   induction σ generalizing c with
   | nil => simpa [run]
@@ -168,6 +173,6 @@ theorem oinv_run {s : Script} (hf : Fused s) (σ : List Nat) {c : Cfg} (hi : Inv
     simp only [run] at hW ⊢
     have h1 : (step s t c).R < W := Nat.lt_of_le_of_lt (run_R_mono s ts _) hW
     have h0 : c.R < W := Nat.lt_of_le_of_lt (step_R_mono s t c) h1
-    exact ih (step_inv hf hi h0 t) (step_oinv hi h t) hW
+    exact ih (step_inv hi h0 t) (step_oinv hi h t) hW
 
 end Orx.IW
